@@ -288,6 +288,9 @@ pub fn fold_e3(o: &mut Outcome, prop: &str, tier: &str, bodies: &[BodySpec], key
         if rep.capped {
             o.cov("exhaustive", json!(false));
         }
+        if rep.completed_bound < 0 {
+            o.machinery_errors.push(format!("body {}: not even the schedules without preemption were completed", b.body.name()));
+        }
         // violations: fewest preemptions / shortest first
         let mut vs = rep.violations;
         vs.sort_by_key(|(_, _, ch, t)| (ch.iter().filter(|c| **c != 0).count(), t.len()));
